@@ -37,6 +37,7 @@ func checkC16(p *Program, tier string) *Result {
 	r := newResult("C16")
 	r.Explanation = "R-FRESHDECODE: in every function decoding a document into a *config.ServerConfig (YAML and JSON loaders) the destination is a local that is zero when the decoder sees it; exactly that value is published by one blocking send on the success edges of the decode and of the minimum-content checks, every nil-error return passes the send, a failed load publishes nothing. Consumer: the update loop assigns providers and filters from builder results for each published value and the builder allocates its list anew; nothing is appended to state kept across updates. Hence the published value is a function of the document bytes alone."
 	ruleFreshDecode(p, r, true)
+	rulePublishedNotWritten(p, r)
 	ruleConsumerReplaces(p, r)
 	ruleAtomicReload(p, r)
 	ruleBuildKeepsConfig(p, r)
